@@ -91,88 +91,113 @@ func CheckStore(c *core.Ctx, tag string, st store.Store, m *model.Bins, o CheckO
 	want := modelBins(m)
 	wantTotal := m.Total()
 
-	if got := st.TotalCount(); got != wantTotal {
-		c.Failf("TotalCount:"+tag, "TotalCount()=%v, model total=%v (diff %g)", got, wantTotal, got-wantTotal)
-	}
-	if got := st.IsEmpty(); got != m.Empty() {
-		c.Failf("IsEmpty:"+tag, "IsEmpty()=%v, model empty=%v", got, m.Empty())
-	}
-	minI, minErr := st.MinIndex()
-	maxI, maxErr := st.MaxIndex()
-	if m.Empty() {
-		if minErr == nil || maxErr == nil {
-			c.Failf("MinMaxIndex.empty:"+tag, "MinIndex/MaxIndex on an empty store returned no error (%d,%v / %d,%v)", minI, minErr, maxI, maxErr)
-		}
-	} else {
-		wmin, _ := m.Min()
-		wmax, _ := m.Max()
-		if minErr != nil || minI != wmin {
-			c.Failf("MinIndex:"+tag, "MinIndex()=%d,%v; model min=%d", minI, minErr, wmin)
-		}
-		if maxErr != nil || maxI != wmax {
-			c.Failf("MaxIndex:"+tag, "MaxIndex()=%d,%v; model max=%d", maxI, maxErr, wmax)
-		}
-	}
-	got, dup, nonpos := ForEachBins(st)
-	if dup {
-		c.Failf("ForEach.dup:"+tag, "ForEach reported an index more than once: %s", fmtBins(got))
-	}
-	if nonpos {
-		c.Failf("ForEach.nonpositive:"+tag, "ForEach reported a bin with weight <= 0: %s", fmtBins(got))
-	}
-	if !equalBins(got, want) {
-		c.Failf("ForEach.content:"+tag, "ForEach bins %s != model %s", fmtBins(got), fmtBins(want))
-	}
-	if o.Ranks && len(want) > 0 {
-		// iteration stops as soon as the callback asks for it (documented on Store.ForEach)
-		k := 1 + int(c.R.U64()%uint64(len(want)+1))
-		calls := 0
-		st.ForEach(func(int, float64) bool { calls++; return calls >= k })
-		wantCalls := k
-		if len(want) < wantCalls {
-			wantCalls = len(want)
-		}
-		c.Count("oracle.foreach_stop_checks", 1)
-		if calls != wantCalls {
-			c.Failf("ForEach.stop:"+tag, "ForEach with a callback stopping at call %d was called %d times (%d bins)", k, calls, len(want))
-		}
-	}
-	if o.Bins {
-		cb := ChanBins(st)
-		sort.SliceStable(cb, func(i, j int) bool { return cb[i].K < cb[j].K })
-		if !equalBins(cb, want) {
-			c.Failf("Bins.content:"+tag, "Bins() stream %s != model %s", fmtBins(cb), fmtBins(want))
-		}
-		c.Count("oracle.bins_streams", 1)
-	}
-	if o.Ranks && len(want) > 0 {
-		probe := func(r float64) {
-			wk, _ := m.KeyAtRank(r)
-			if gk := st.KeyAtRank(r); gk != wk {
-				c.Failf("KeyAtRank:"+tag, "KeyAtRank(%v)=%d, model=%d (bins %s)", r, gk, wk, fmtBins(want))
+	// the observers are asked in an order that varies from check to check: whichever comes first finds the
+	// store as the last mutation left it (unsorted buffer, pending compaction)
+	var got []KV
+	groups := []func(){
+		func() {
+			if got := st.TotalCount(); got != wantTotal {
+				c.Failf("TotalCount:"+tag, "TotalCount()=%v, model total=%v (diff %g)", got, wantTotal, got-wantTotal)
 			}
-			c.Count("oracle.rank_probes", 1)
-		}
-		probe(-1)
-		probe(0)
-		probe(wantTotal)
-		probe(wantTotal + 10)
-		step := 1
-		if o.MaxRanks > 0 && len(want) > o.MaxRanks {
-			step = len(want)/o.MaxRanks + 1
-		}
-		cum := 0.0
-		for i, kv := range want {
-			prev := cum
-			cum += kv.W
-			if i%step != 0 {
-				continue
+			if got := st.IsEmpty(); got != m.Empty() {
+				c.Failf("IsEmpty:"+tag, "IsEmpty()=%v, model empty=%v", got, m.Empty())
 			}
-			probe(cum) // exactly on the boundary: must go to the next bin
-			c.Count("oracle.rank_probes_on_boundary", 1)
-			probe(math.Nextafter(cum, 0))
-			probe(prev + kv.W/2)
-		}
+			minI, minErr := st.MinIndex()
+			maxI, maxErr := st.MaxIndex()
+			if m.Empty() {
+				if minErr == nil || maxErr == nil {
+					c.Failf("MinMaxIndex.empty:"+tag, "MinIndex/MaxIndex on an empty store returned no error (%d,%v / %d,%v)", minI, minErr, maxI, maxErr)
+				}
+			} else {
+				wmin, _ := m.Min()
+				wmax, _ := m.Max()
+				if minErr != nil || minI != wmin {
+					c.Failf("MinIndex:"+tag, "MinIndex()=%d,%v; model min=%d", minI, minErr, wmin)
+				}
+				if maxErr != nil || maxI != wmax {
+					c.Failf("MaxIndex:"+tag, "MaxIndex()=%d,%v; model max=%d", maxI, maxErr, wmax)
+				}
+			}
+		},
+		func() {
+			var dup, nonpos bool
+			got, dup, nonpos = ForEachBins(st)
+			if dup {
+				c.Failf("ForEach.dup:"+tag, "ForEach reported an index more than once: %s", fmtBins(got))
+			}
+			if nonpos {
+				c.Failf("ForEach.nonpositive:"+tag, "ForEach reported a bin with weight <= 0: %s", fmtBins(got))
+			}
+			if !equalBins(got, want) {
+				c.Failf("ForEach.content:"+tag, "ForEach bins %s != model %s", fmtBins(got), fmtBins(want))
+			}
+			if o.Ranks && len(want) > 0 {
+				// iteration stops as soon as the callback asks for it (documented on Store.ForEach)
+				k := 1 + int(c.R.U64()%uint64(len(want)+1))
+				calls := 0
+				st.ForEach(func(int, float64) bool { calls++; return calls >= k })
+				wantCalls := k
+				if len(want) < wantCalls {
+					wantCalls = len(want)
+				}
+				c.Count("oracle.foreach_stop_checks", 1)
+				if calls != wantCalls {
+					c.Failf("ForEach.stop:"+tag, "ForEach with a callback stopping at call %d was called %d times (%d bins)", k, calls, len(want))
+				}
+			}
+		},
+		func() {
+			if o.Bins {
+				cb := ChanBins(st)
+				sort.SliceStable(cb, func(i, j int) bool { return cb[i].K < cb[j].K })
+				if !equalBins(cb, want) {
+					c.Failf("Bins.content:"+tag, "Bins() stream %s != model %s", fmtBins(cb), fmtBins(want))
+				}
+				c.Count("oracle.bins_streams", 1)
+			}
+		},
+		func() {
+			if o.Ranks && len(want) > 0 {
+				probe := func(r float64) {
+					wk, _ := m.KeyAtRank(r)
+					if gk := st.KeyAtRank(r); gk != wk {
+						c.Failf("KeyAtRank:"+tag, "KeyAtRank(%v)=%d, model=%d (bins %s)", r, gk, wk, fmtBins(want))
+					}
+					c.Count("oracle.rank_probes", 1)
+				}
+				probe(-1)
+				probe(0)
+				probe(wantTotal)
+				probe(wantTotal + 10)
+				step := 1
+				if o.MaxRanks > 0 && len(want) > o.MaxRanks {
+					step = len(want)/o.MaxRanks + 1
+				}
+				cum := 0.0
+				for i, kv := range want {
+					prev := cum
+					cum += kv.W
+					if i%step != 0 {
+						continue
+					}
+					probe(cum) // exactly on the boundary: must go to the next bin
+					c.Count("oracle.rank_probes_on_boundary", 1)
+					probe(math.Nextafter(cum, 0))
+					probe(prev + kv.W/2)
+				}
+			}
+		},
+	}
+	z := nextOrder()
+	for i := len(groups) - 1; i > 0; i-- {
+		j := int((z >> uint(8*i)) % uint64(i+1))
+		groups[i], groups[j] = groups[j], groups[i]
+	}
+	for _, g := range groups {
+		g()
+	}
+	if got == nil {
+		got = []KV{}
 	}
 	if m.Fold != model.NoFold {
 		if len(got) > m.N {
